@@ -155,6 +155,11 @@ def f_ctor(case):
     # to_qutip export
     q = S.to_qutip()
     check(np.allclose(np.asarray(q.full()), rho, atol=1e-9 if be == 'np' else 1e-6), '%s_state(%d).to_qutip() differs from the named state' % (name, N), 'to_qutip')
+    if case.get('gen') and make is not None:
+        # the caller owns the returned state: evolve it in place, then ask the constructor again
+        gl, gk = ref.parse(case['gen'])
+        S.rotate_by(Bk.pauli(gl, gk))
+        C.same_state_denotation(make(), rho, r, '%s_state(%d) requested again after the first result was rotated in place' % (name, N), sig='ctor-second-call', be=be)
     return {'nt': name in ('one', 'ghz') and N >= 2, 'labels': [name, 'N=%d' % N]}
 
 
